@@ -69,7 +69,7 @@ EXPECT_PROBES = ["decl_before_reg", "reg_before_decl", "chained_register",
                  "quit_before_up", "quit_after_up", "quit_twice",
                  "quit_retry_while_starting", "quit_foreign_thread",
                  "reregister", "empty_deps", "dup_deps", "redeclared",
-                 "listen_args"]
+                 "listen_args", "falsy_component"]
 
 # known-finding ids (tolerated only when listed as open in
 # /verif/known_findings.json, each at exactly the signature described)
@@ -101,7 +101,10 @@ def gen_plan(seed, tier):
   for c in names:
     comps[c] = {"kind": r.wpick([(4, "ping"), (2, "plain"), (1, "pong")]),
                 "via": r.pick(["name", "obj", "new"]),
-                "core_name": r.chance(0.5)}
+                "core_name": r.chance(0.5),
+                # a component is whatever object was registered: also an
+                # empty container (len 0) or something false
+                "falsy": r.wpick([(5, ""), (1, "len"), (1, "bool")])}
   waiters = {}
   chained = set()
   for i in range(nwait):
@@ -547,6 +550,12 @@ class Harness(object):
       h.objs[c].append(self)
       h.cur[c] = self
     ns["__init__"] = __init__
+    if spec.get("falsy") == "len":
+      ns["__len__"] = lambda self: 0
+      h.probe("falsy_component")
+    elif spec.get("falsy") == "bool":
+      ns["__bool__"] = lambda self: False
+      h.probe("falsy_component")
     if spec.get("core_name"):
       ns["_core_name"] = c
       cname = "Comp_" + c
